@@ -12,13 +12,16 @@ class RecordingSubscriber:
     """BaseSubscriber-compatible recorder; optional scripts run inside callbacks."""
 
     def __init__(self, I, name='sub', on_done_script=None, on_queued_script=None,
-                 raise_in=None, provide_size=None):
+                 raise_in=None, provide_size=None, raise_exc=None):
         self.I = I
         self.name = name
         self.on_done_script = on_done_script or []
         self.on_queued_script = on_queued_script or []
         self.raise_in = raise_in or set()
         self.provide_size = provide_size
+        # the exception class a raising callback uses: RuntimeError, or an OSError subclass
+        # ('oserror': user callbacks do raise those, and they are not retryable stream errors)
+        self.raise_cls = PermissionError if raise_exc == 'oserror' else RuntimeError
         self.events = []
 
     def _script(self, future, script):
@@ -50,13 +53,13 @@ class RecordingSubscriber:
             future.meta.provide_transfer_size(self.provide_size)
         self._script(future, self.on_queued_script)
         if 'queued' in self.raise_in:
-            raise RuntimeError(f'{self.name}: on_queued raises')
+            raise self.raise_cls(f'{self.name}: on_queued raises')
 
     def on_progress(self, future, bytes_transferred, **kw):
         self.I.log('on_progress', sub=self.name, t=future.meta.transfer_id, n=bytes_transferred)
         self.events.append(('progress', bytes_transferred))
         if 'progress' in self.raise_in:
-            raise RuntimeError(f'{self.name}: on_progress raises')
+            raise self.raise_cls(f'{self.name}: on_progress raises')
 
     def on_done(self, future, **kw):
         self.I.log('on_done', sub=self.name, t=future.meta.transfer_id,
